@@ -72,9 +72,11 @@ func (dist *LaplaceDistribution) LogPdf(r Scalar, x ConstScalar) error {
   r.Abs(r)
   r.Div(r, dist.Sigma)
   r.Neg(r)
-  r.Exp(r)
-  r.Div(r, dist.Sigma)
-  r.Div(r, dist.c2)
+  // subtract log(2 sigma)
+  t := dist.c2.CloneScalar()
+  t.Mul(t, dist.Sigma)
+  t.Log(t)
+  r.Sub(r, t)
 
   return nil
 }
@@ -100,6 +102,7 @@ func (dist *LaplaceDistribution) LogCdf(r Scalar, x Vector) error {
     r.Neg(r)
     r.Add(r, dist.c1)
   }
+  r.Log(r)
   return nil
 }
 
